@@ -36,7 +36,7 @@ def result(ob, func, status, kind="deciding", backend="", time_s=0.0, model=None
 
 
 def prove(ob, func, hyp, goal, kind="deciding", timeout_s=10.0, model_vars=None, text="", replay=None, case="",
-          known=None):
+          known=None, nia=False, plain=False):
     """Discharge `hyp => goal`.  `known`: optional list of (finding_id, z3 condition) — a `sat` answer is
     re-solved with every known condition excluded; if that is unsat the result is tagged known=<ids>."""
     import z3
@@ -48,7 +48,10 @@ def prove(ob, func, hyp, goal, kind="deciding", timeout_s=10.0, model_vars=None,
     from . import tensor as _tensor
     if _tensor.COMPILE_MODE_USED:
         model_vars = dict(model_vars or {}, is_compiling=z3.Bool("is_compiling"))
-    ax = sqrt_axioms(hyp, goal) + div_axioms(hyp, goal) + pow_axioms(hyp, goal)
+    ax = [] if plain else sqrt_axioms(hyp, goal) + div_axioms(hyp, goal) + pow_axioms(hyp, goal)
+    if nia:
+        from .sym import mul_axioms
+        ax = ax + mul_axioms(hyp, goal, *ax)
     if ax:
         hyp = z3.And(hyp, *ax)
     saved = _solve.VIOLATION_BUDGET["left"]
